@@ -46,6 +46,10 @@ CascList(R, ids) ==
 Init == /\ next = 1 /\ logical = {} /\ justs = <<>> /\ present = {} /\ retracted = {} /\ live = {}
         /\ nops = 0 /\ last = [op |-> "init"]
 
+(* the premise LIST handed to the engine: a justification supports through the SET of its premises, so a list that names *)
+(* the same fact twice (two patterns of a rule matched by one fact) means the same as the list without the repetition   *)
+PremList(P, dup) == LET q == SetToSeq(P) IN IF dup THEN q \o <<q[1]>> ELSE q
+
 InsertExplicit ==
     /\ next <= NH
     /\ present' = present \cup {next} /\ live' = live \cup {next} /\ next' = next + 1
@@ -58,14 +62,14 @@ InsertLogical(P) ==
     /\ logical' = logical \cup {next}
     /\ justs' = Append(justs, [fact |-> next, prem |-> P])
     /\ UNCHANGED retracted
-    /\ last' = [op |-> "logical", prem |-> SetToSeq(P)]
+    /\ \E dup \in BOOLEAN : last' = [op |-> "logical", prem |-> PremList(P, dup)]
 
 AddJust(h, P) ==
     /\ h \in present \cap logical /\ h \notin P /\ Len(justs) < MaxJ
     /\ [fact |-> h, prem |-> P] \notin JustSet
     /\ justs' = Append(justs, [fact |-> h, prem |-> P])
     /\ UNCHANGED <<next, logical, present, retracted, live>>
-    /\ last' = [op |-> "addjust", h |-> h, prem |-> SetToSeq(P)]
+    /\ \E dup \in BOOLEAN : last' = [op |-> "addjust", h |-> h, prem |-> PremList(P, dup)]
 
 (* retract of a live handle; retract of a dead or never-issued handle is an error without effect *)
 Retract(h) ==
